@@ -132,13 +132,15 @@ const (
 	fOr
 	fNot
 	fConst
+	fPair // explicit positive / negative DNFs
 )
 
 type Form struct {
-	kind formKind
-	atom Atom
-	l, r *Form
-	b    bool
+	kind     formKind
+	atom     Atom
+	l, r     *Form
+	b        bool
+	pos, neg DNF
 }
 
 func formAtom(a Atom) *Form  { return &Form{kind: fAtom, atom: a} }
@@ -168,6 +170,11 @@ func (f *Form) dnf(neg bool) DNF {
 		return d
 	case fNot:
 		return f.l.dnf(!neg)
+	case fPair:
+		if neg {
+			return f.neg
+		}
+		return f.pos
 	case fAnd, fOr:
 		isAnd := (f.kind == fAnd) != neg
 		a, b := f.l.dnf(neg), f.r.dnf(neg)
@@ -197,6 +204,8 @@ func (f *Form) String() string {
 		return f.atom.String()
 	case fNot:
 		return "!(" + f.l.String() + ")"
+	case fPair:
+		return "{" + f.pos.String() + " / " + f.neg.String() + "}"
 	case fAnd:
 		return "(" + f.l.String() + " && " + f.r.String() + ")"
 	}
@@ -273,9 +282,14 @@ func (u *Universe) symbolic(key string, t types.Type) AV {
 		if isBoolType(tt.Elem()) {
 			r.elemBool = true
 		}
-		return ASlice{root: r, off: Aff{}, ln: affSym(ln), nilSym: u.boolSym("nil(" + key + ")"), elem: tt.Elem()}
+		ns := u.boolSym("nil(" + key + ")")
+		return ASlice{root: r, off: Aff{}, ln: affSym(ln), nilSym: ns, elem: tt.Elem()}
 	case *types.Struct:
 		return AStruct{key, t}
+	case *types.Array:
+		// arrays are modelled as fixed-length views
+		r := &Root{key: key, ln: affConst(tt.Len())}
+		return ASlice{root: r, off: Aff{}, ln: affConst(tt.Len()), elem: tt.Elem()}
 	case *types.Pointer:
 		o := &Obj{key: "*" + key, symbolic: true, typ: tt.Elem()}
 		return APtr{obj: o, typ: tt.Elem()}
@@ -317,6 +331,9 @@ func zeroValue(t types.Type) AV {
 			fs[i] = zeroValue(tt.Field(i).Type())
 		}
 		return AStructLit{typ: t, fields: fs}
+	case *types.Array:
+		r := &Root{key: "zeroarray", fresh: true, ln: affConst(tt.Len())}
+		return ASlice{root: r, off: Aff{}, ln: affConst(tt.Len()), elem: tt.Elem()}
 	case *types.Pointer, *types.Interface, *types.Signature, *types.Map, *types.Chan:
 		return ANil{t}
 	}
